@@ -128,8 +128,10 @@ PROPS["C03"] = Prop(jobs=6,
                    "one call, <= 4 polls, breaker lock granted at the solver's choice, try_acquire answer symbolic (Circuit operations scripted), any inner outcome", profile="service", mem_gb=24, timeout=1800),
                _cb("c03_call_wiring_with_fallback", "CircuitBreakerWithFallback::call: rejected => the fallback's result, inner untouched", "as above", profile="service", mem_gb=24, timeout=1800)]
             + _cbfam("c04_step", "every transition into open (failure rate, slow-call rate, failed half-open probe, force_open) stamps the current instant, so the open period always lasts wait_duration_in_open",
-                     {("count", 0), ("time", 0)}, timeout=900),
-    functions=["tower_resilience_circuitbreaker::circuit::Circuit::{try_acquire,record_success,record_failure,transition_to,evaluate_window}"],
+                     {("count", 0), ("time", 0)}, timeout=900)
+            + [H("verif_kani::c04b::builder_is_faithful", CB, "the configured wait_duration_in_open (and every other setting) reaches the breaker unchanged", "all values symbolic", models=("tokio",), playback=False, timeout=900),
+               H("verif_kani::c04b::builder_classifier_step_is_faithful", CB, "same through the type-changing failure_classifier step", "all values symbolic", models=("tokio",), playback=False, timeout=900)],
+    functions=["tower_resilience_circuitbreaker::circuit::Circuit::{try_acquire,record_success,record_failure,transition_to,evaluate_window}", "CircuitBreakerConfigBuilder::{*, failure_classifier, build}"],
     bounds=CB_BOUND, outside="window sizes > 3; the service-level wiring (call() consults try_acquire before touching the inner service) is a separate protocol harness",
     assumptions=["Instant::now stubbed by a virtual clock; catch_unwind stubbed (no unwinding in Kani)",
                  "every Circuit operation runs under the breaker's mutex (lib.rs), so sequences of operations are the interleavings"],
@@ -153,8 +155,11 @@ PROPS["C09"] = Prop(jobs=6,
         _cb("c09_overlapping_time", "same, time-based window", "as above", expect="known", timeout=600),
         _cb("c04_custom_classifier_recording", "every admitted (trial) call records exactly one outcome, classified by the configured classifier", "one admitted call, any inner outcome", profile="service", mem_gb=24, timeout=1800),
     ] + _cbfam("c04_step", "inductive step: half-open admits iff completed trial calls < permitted; success counts, closes at permitted; failure re-opens",
-               {("count", 0), ("count", 2), ("time", 0)}, timeout=900),
-    functions=["Circuit::{try_acquire (HalfOpen branch), record_success, record_failure, transition_to}"],
+               {("count", 0), ("count", 2), ("time", 0)}, timeout=900)
+      + [next(h for h in PROPS["C03"].harnesses if h.name.endswith("c03_call_wiring"))]  # every admitted (trial) call records its outcome even when the breaker lock is contended
+      + [H("verif_kani::c04b::builder_is_faithful", CB, "the configured permitted_calls_in_half_open (and every other setting) reaches the breaker unchanged", "all values symbolic", models=("tokio",), playback=False, timeout=900),
+         H("verif_kani::c04b::builder_classifier_step_is_faithful", CB, "same through the type-changing failure_classifier step, settings before or after it", "all values symbolic", models=("tokio",), playback=False, timeout=900)],
+    functions=["Circuit::{try_acquire (HalfOpen branch), record_success, record_failure, transition_to}", "CircuitBreakerConfigBuilder::{*, failure_classifier, build}"],
     bounds=CB_BOUND,
     outside="overlapping trial calls are a recorded finding (known_findings.json), decided separately by the witness harnesses",
     assumptions=["Instant::now / catch_unwind stubs", "a trial call 'reaches the wrapped service' iff try_acquire returned true (wiring checked under C03/C20)"],
@@ -270,6 +275,7 @@ _rl_h = [
     _rlk("sliding_log_step_l3_n3", "sliding log (limit 3, 3 grants in the log): grants dropped only when expired, grant iff < limit unexpired", RL_BOUND, timeout=900, tiers=("thorough",)),
     _rlk("sliding_log_huge_window", "sliding log with a window of 10^9 s ..= Duration::MAX ('never refresh'; oldest + window is not a representable Instant): a full log admits nobody, the caller is rejected",
          "limit 1, one unexpired grant, any timeout <= 300 s", timeout=600),
+    _rlk("sliding_log_limit_zero", "sliding log with limit_for_period = 0: nobody is granted (the empty log has no oldest grant to wait for)", "limit 0, any window <= 100 s, any timeout <= 300 s", timeout=600),
     _rlk("sliding_counter_step_limit4", "sliding counter: rotation only after a full bucket, grants counted, <= limit per bucket (f64 weights bit-exact)", RL_BOUND + "; limit <= 4, whole seconds", timeout=900),
     _rlk("sliding_counter_step_limit16", "same, limit <= 16", RL_BOUND + "; limit <= 16, whole seconds", timeout=2400, tiers=("thorough",)),
     _rlk("counter_idle_recovers", "sliding counter: empty after two idle periods", RL_BOUND, timeout=600),
@@ -458,6 +464,10 @@ PROPS["C08"] = Prop(
              "max_budget <= 2^20, amounts 1..=8, arbitrary pre-balance, <= 2 interferences on balance and limit cells", timeout=600),
         _c08("aimd_deposit_linearizable", "AimdBudget::deposit: v' = min(v+amount, L), L in [min,max], on the value in the cell",
              "as above", timeout=600),
+        _c08("aimd_builder_is_faithful", "public builder -> AIMD budget: starts full at max_budget, a retry costs withdraw_amount, a success credits deposit_amount (capped)",
+             "max <= 1024, amounts 1..=8, sequential", timeout=600),
+        _c08("token_bucket_builder_is_faithful", "public builder -> token bucket: initial tokens (default full), one token per retry, never above max_tokens",
+             "max <= 1024, sequential", timeout=600),
         H("aimd::verif_kani_in_aimd_rg::aimd_every_write_in_bounds_under_interference", "tower-resilience-core",
           "guarantee side of the rely used above: every write of the AIMD limit (the budget's dynamic cap) stays in [min,max] under interference",
           "any config min <= max <= 2^32; <= 2 interfering writes", features=("verif-hooks",), playback=False, timeout=900),
